@@ -476,3 +476,199 @@ Qed.
 
 Example swap_far_applies : to_list 5 (swap (cl_run 5 [NewAfter 1 0 false 0; NewAfter 2 1 false 0; NewAfter 3 2 false 0; NewAfter 4 3 false 0]) 2 4) = [1; 4; 3; 2].
 Proof. vm_compute. reflexivity. Qed.
+
+(* ---------------------------------------------------------------- AddBefore *)
+Definition link_before (s : st) (o r : nat) : st :=
+  let s1 := set_nxt s o r in
+  let s2 := set_prv s1 o (prv s1 r) in
+  let s3 := if Nat.eqb (prv s2 r) 0 then set_hd s2 o else set_nxt s2 (prv s2 r) o in
+  set_prv s3 r o.
+
+Lemma add_before_link : forall s o r, o <> 0 -> r <> 0 -> add_before s o r = link_before (remove s o) o r.
+Proof. intros s o r Ho Hr. unfold add_before. rewrite (eqb_false o 0 Ho), (eqb_false r 0 Hr). reflexivity. Qed.
+
+Lemma link_before_char : forall s o r, o <> 0 -> r <> 0 -> o <> r -> prv s r <> o ->
+  let s' := link_before s o r in
+  (forall y, nxt s' y = if Nat.eqb y (prv s r) && negb (Nat.eqb (prv s r) 0) then o else if Nat.eqb y o then r else nxt s y) /\
+  (forall y, prv s' y = if Nat.eqb y r then o else if Nat.eqb y o then prv s r else prv s y) /\
+  hd_ s' = (if Nat.eqb (prv s r) 0 then o else hd_ s) /\
+  tl_ s' = tl_ s /\ isnl s' = isnl s /\ nlc s' = nlc s.
+Proof.
+  intros s o r Ho Hr Hor Hn. unfold link_before.
+  destruct s as [nx pv h t i c]. cbn [nxt prv hd_ tl_] in *.
+  repeat split; try intros y; eqb_cases; cbn [nxt prv hd_ tl_ isnl nlc set_hd set_tl set_prv set_nxt] in *; unfold upd in *; eqb_all; subst; try reflexivity; try congruence; try lia.
+Qed.
+
+Theorem link_before_repr : forall s l1 r l2 o,
+  repr s (l1 ++ r :: l2) -> o <> 0 -> ~ In o (l1 ++ r :: l2) ->
+  repr (link_before s o r) (l1 ++ o :: r :: l2) /\ isnl (link_before s o r) = isnl s /\ nlc (link_before s o r) = nlc s.
+Proof.
+  intros s l1 r l2 o (ND & N0 & Hh & Ht & C) Ho Hnin.
+  destruct (nodup_mid _ _ _ ND) as (ND' & X1 & X2 & X12).
+  apply chain_app in C. destruct C as [C1 C2]. cbn [chain hd] in C1, C2. destruct C2 as (Cp & Cn & C2).
+  assert (Hr : r <> 0) by (intro; subst; apply N0; apply in_or_app; right; left; reflexivity).
+  assert (Hor : o <> r) by (intro; subst; apply Hnin; apply in_or_app; right; left; reflexivity).
+  assert (O1 : ~ In o l1) by (intro; apply Hnin; apply in_or_app; auto).
+  assert (O2 : ~ In o l2) by (intro; apply Hnin; apply in_or_app; right; right; auto).
+  assert (Z1 : forall y, In y l1 -> y <> 0) by (intros y Hy E; subst; apply N0; apply in_or_app; auto).
+  assert (Hpo : prv s r <> o).
+  { rewrite Cp. destruct l1 as [|z l1'] eqn:E1; [simpl; congruence|]. rewrite <- E1 in *. intro E. apply O1. rewrite <- E. apply last_in. subst; discriminate. }
+  assert (Hlast : l1 <> [] -> In (last l1 0) l1) by (intro; apply last_in; assumption).
+  destruct (link_before_char s o r Ho Hr Hor Hpo) as (RN & RP & RH & RT & RI & RC).
+  remember (link_before s o r) as s' eqn:Es'. clear Es'.
+  split; [|split; assumption].
+  unfold repr. split.
+  { apply nodup_insert; assumption. }
+  split.
+  { intro H0. apply in_app_or in H0. destruct H0 as [H0|[H0|H0]]; try congruence.
+    - apply N0. apply in_or_app; auto.
+    - apply N0. apply in_or_app; right; exact H0. }
+  split.
+  { rewrite RH, Hh, Cp. destruct l1 as [|z l1'] eqn:E1; [reflexivity|]. rewrite <- E1 in *.
+    rewrite (eqb_false _ 0 (Z1 _ (Hlast ltac:(subst; discriminate)))). subst; reflexivity. }
+  split.
+  { rewrite RT, Ht. rewrite !last_app_ne by discriminate. reflexivity. }
+  apply chain_app. split.
+  - simpl hd. apply chain_set_last with (s := s) (n := r).
+    + apply nodup_app_l in ND'. exact ND'.
+    + exact C1.
+    + intros y Hy. rewrite RP. rewrite eqb_false by (intro; subst; contradiction). rewrite eqb_false by (intro; subst; contradiction). reflexivity.
+    + intros y Hy Hne. rewrite RN, Cp. rewrite (eqb_false y (last l1 0) Hne). simpl. rewrite eqb_false by (intro; subst; contradiction). reflexivity.
+    + intros Hl1. rewrite RN, Cp, eqb_refl'. rewrite (eqb_false _ 0 (Z1 _ (Hlast Hl1))). reflexivity.
+  - cbn [chain hd]. split; [|split; [|split; [|split]]].
+    + rewrite RP, (eqb_false o r Hor), eqb_refl'. exact Cp.
+    + rewrite RN, eqb_refl'. destruct (Nat.eqb_spec o (prv s r)) as [E|E]; [congruence|]. reflexivity.
+    + rewrite RP, eqb_refl'. reflexivity.
+    + rewrite RN. rewrite (eqb_false r o) by congruence.
+      destruct (Nat.eqb_spec r (prv s r)) as [E|E]; simpl; [|exact Cn].
+      destruct (Nat.eqb_spec (prv s r) 0) as [E0|E0]; simpl; [exact Cn|]. exfalso.
+      rewrite Cp in E. apply X1. rewrite E. apply Hlast. intro; subst l1. simpl in E. congruence.
+    + apply chain_ext with (s := s); [|exact C2]. intros y Hy. split.
+      * rewrite RN. destruct (Nat.eqb_spec y (prv s r)) as [E|E]; simpl.
+        -- destruct (Nat.eqb_spec (prv s r) 0) as [E0|E0]; simpl.
+           ++ rewrite eqb_false by (intro; subst; contradiction). reflexivity.
+           ++ exfalso. rewrite Cp in E, E0. apply (X12 (last l1 0)); [apply Hlast; intro; subst l1; simpl in E0; congruence|rewrite <- E; exact Hy].
+        -- rewrite eqb_false by (intro; subst; contradiction). reflexivity.
+      * rewrite RP. rewrite eqb_false by (intro; subst; contradiction). rewrite eqb_false by (intro; subst; contradiction). reflexivity.
+Qed.
+
+Fixpoint ins_before (r o : nat) (l : list nat) : list nat :=
+  match l with [] => [] | y :: t => if Nat.eqb y r then o :: y :: t else y :: ins_before r o t end.
+Lemma ins_before_split : forall m1 r o m2, ~ In r m1 -> ins_before r o (m1 ++ r :: m2) = m1 ++ o :: r :: m2.
+Proof.
+  induction m1 as [|y m1 IH]; intros r o m2 H; simpl; [rewrite eqb_refl'; reflexivity|].
+  rewrite eqb_false by (intro; subst; apply H; left; reflexivity). rewrite IH; [reflexivity|]. intro; apply H; right; assumption.
+Qed.
+Lemma ins_before_perm : forall l r o, In r l -> Permutation (o :: l) (ins_before r o l).
+Proof.
+  induction l as [|y l IH]; intros r o H; [contradiction|]. simpl. destruct (Nat.eqb_spec y r) as [->|E]; [reflexivity|].
+  destruct H as [H|H]; [congruence|]. rewrite perm_swap. constructor. apply IH, H.
+Qed.
+
+(** Remove on a chunk that is not linked (what AddBefore does first with a fresh or just removed chunk) changes nothing *)
+Lemma remove_detached : forall s l o, repr s l -> ~ In o l -> o <> 0 -> nxt s o = 0 -> prv s o = 0 ->
+  repr (remove s o) l /\ isnl (remove s o) = isnl s /\ nlc (remove s o) = nlc s.
+Proof.
+  intros s l o (ND & N0 & Hh & Ht & C) Hn Ho En Ep.
+  assert (A1 : nxt s o <> o) by congruence. assert (A2 : prv s o <> o) by congruence.
+  destruct (remove_char s o Ho A1 A2) as (RN & RP & RH & RT).
+  assert (Hisnl : isnl (remove s o) = isnl s /\ nlc (remove s o) = nlc s).
+  { unfold remove. rewrite (eqb_false o 0 Ho).
+    repeat match goal with |- context [if ?b then _ else _] => destruct b end; split; reflexivity. }
+  split; [|exact Hisnl].
+  unfold repr. repeat split; auto.
+  - rewrite RH, Hh. rewrite eqb_false; [reflexivity|]. intro E. destruct l as [|z l']; simpl in E; [congruence|]. apply Hn. left. exact E.
+  - rewrite RT, Ht. rewrite eqb_false; [reflexivity|]. intro E. destruct (list_eq_dec Nat.eq_dec l []) as [El|El]; [subst l; simpl in E; congruence|].
+    apply Hn. rewrite <- E. apply last_in. exact El.
+  - apply chain_ext with (s := s); [|exact C]. intros y Hy. rewrite RN, RP, En, Ep. simpl.
+    rewrite eqb_false by (intro; subst; contradiction). rewrite !andb_false_r. split; reflexivity.
+Qed.
+
+Theorem add_before_abs : forall s l r o, repr s l -> In r l -> o <> 0 -> ~ In o l -> nxt s o = 0 -> prv s o = 0 ->
+  repr (add_before s o r) (ins_before r o l) /\ isnl (add_before s o r) = isnl s /\ nlc (add_before s o r) = nlc s.
+Proof.
+  intros s l r o R Hr Ho Hn En Ep.
+  assert (R0 : r <> 0) by (intro; subst; destruct R as (_ & N0 & _); contradiction).
+  rewrite (add_before_link s o r Ho R0).
+  destruct (remove_detached s l o R Hn Ho En Ep) as (R1 & I1 & C1).
+  destruct (split_nodup l r (proj1 R) Hr) as (l1 & l2 & -> & A & B). rewrite ins_before_split by exact A.
+  destruct (link_before_repr (remove s o) l1 r l2 o R1 Ho Hn) as (R2 & I2 & C2).
+  split; [exact R2|]. split; congruence.
+Qed.
+
+(** ChunkListManager::Swap, first neighbour branch: obj2 stands directly in front of obj1 *)
+Theorem swap_prev_abs : forall s l a b, repr s l -> In a l -> In b l -> a <> b -> prv s a = b ->
+  repr (swap s a b) (ins_before b a (rem a l)) /\ Permutation l (ins_before b a (rem a l)).
+Proof.
+  intros s l a b R Ha Hb Hab Hp.
+  assert (A0 : a <> 0) by (intro E; rewrite E in Ha; destruct R as (_ & N0 & _); contradiction).
+  assert (B0 : b <> 0) by (intro E; rewrite E in Hb; destruct R as (_ & N0 & _); contradiction).
+  unfold swap. rewrite (eqb_false a 0 A0), (eqb_false b 0 B0). cbn [orb]. rewrite Hp, eqb_refl'.
+  destruct (remove_abs s l a R Ha) as (R1 & N1 & P1 & _).
+  assert (Hb1 : In b (rem a l)) by (apply rem_in_other; auto).
+  split.
+  - apply add_before_abs; auto. apply rem_notin. exact (proj1 R).
+  - rewrite (rem_perm l a Ha) at 1. apply ins_before_perm. exact Hb1.
+Qed.
+
+(** second neighbour branch: obj1 stands directly in front of obj2 *)
+Theorem swap_next_abs : forall s l a b, repr s l -> In a l -> In b l -> a <> b -> prv s a <> b -> prv s b = a ->
+  repr (swap s a b) (ins_before a b (rem b l)) /\ Permutation l (ins_before a b (rem b l)).
+Proof.
+  intros s l a b R Ha Hb Hab Hpa Hp.
+  assert (A0 : a <> 0) by (intro E; rewrite E in Ha; destruct R as (_ & N0 & _); contradiction).
+  assert (B0 : b <> 0) by (intro E; rewrite E in Hb; destruct R as (_ & N0 & _); contradiction).
+  unfold swap. rewrite (eqb_false a 0 A0), (eqb_false b 0 B0). cbn [orb]. rewrite (eqb_false _ _ Hpa), Hp, eqb_refl'.
+  destruct (remove_abs s l b R Hb) as (R1 & N1 & P1 & _).
+  assert (Ha1 : In a (rem b l)) by (apply rem_in_other; auto).
+  split.
+  - apply add_before_abs; auto. apply rem_notin. exact (proj1 R).
+  - rewrite (rem_perm l b Hb) at 1. apply ins_before_perm. exact Ha1.
+Qed.
+
+(** every branch of Swap inside its contract keeps every chunk *)
+Theorem swap_permutes : forall s l a b, repr s l -> In a l -> In b l -> a <> b ->
+  (prv s a = b \/ prv s b = a \/ (prv s a <> 0 /\ prv (remove s a) b <> 0)) ->
+  exists l', repr (swap s a b) l' /\ Permutation l l'.
+Proof.
+  intros s l a b R Ha Hb Hab H.
+  destruct (Nat.eq_dec (prv s a) b) as [E1|E1].
+  { eexists. apply swap_prev_abs; assumption. }
+  destruct (Nat.eq_dec (prv s b) a) as [E2|E2].
+  { eexists. apply swap_next_abs; assumption. }
+  destruct H as [H|[H|[H1 H2]]]; try contradiction.
+  eexists. apply swap_far_abs; assumption.
+Qed.
+
+(* ---------------------------------------------------------------- sequences of MoveAfter and Swap *)
+Definition okS (s : st) (l : list nat) (p : op) : Prop :=
+  match p with
+  | MoveAfter x r => In x l /\ In r l /\ x <> r
+  | Swap a b => In a l /\ In b l /\ a <> b /\ (prv s a = b \/ prv s b = a \/ (prv s a <> 0 /\ prv (remove s a) b <> 0))
+  | _ => False
+  end.
+Fixpoint safe (fuel : nat) (s : st) (ops : list op) : Prop :=
+  match ops with
+  | [] => True
+  | p :: ps => (forall l, repr s l -> okS s l p) /\ safe fuel (step fuel s p) ps
+  end.
+
+(** every reachable state of the passes' reordering operations: whatever sequence of MoveAfter and Swap is applied, each inside its
+    contract in the state it meets, the chunk list stays a well-formed doubly linked list holding exactly the chunks it held *)
+Theorem reordering_keeps_every_chunk : forall fuel ops s l, repr s l -> safe fuel s ops ->
+  exists l', repr (fold_left (step fuel) ops s) l' /\ Permutation l l'.
+Proof.
+  intros fuel ops. induction ops as [|p ps IH]; intros s l R H.
+  - exists l. split; [exact R|reflexivity].
+  - cbn [fold_left]. destruct H as [H1 H2]. specialize (H1 l R).
+    assert (E : exists l1, repr (step fuel s p) l1 /\ Permutation l l1).
+    { destruct p as [o r nl c|o r nl c|x|x r|a b|a b]; simpl in H1; try contradiction; simpl.
+      - destruct H1 as (Hx & Hr & Hne). apply move_after_perm; assumption.
+      - destruct H1 as (Ha & Hb & Hab & Hc). apply swap_permutes; assumption. }
+    destruct E as (l1 & R1 & P1). destruct (IH _ l1 R1 H2) as (l' & R' & P'). exists l'. split; [exact R'|]. transitivity l1; assumption.
+Qed.
+
+Definition four : st := cl_run 5 [NewAfter 1 0 false 0; NewAfter 2 1 false 0; NewAfter 3 2 false 0; NewAfter 4 3 false 0].
+Example reordering_example :
+  to_list 5 (fold_left (step 5) [Swap 2 4; Swap 3 4; Swap 4 3; MoveAfter 1 4; Swap 2 1] four) = [4; 2; 3; 1].
+Proof. vm_compute. reflexivity. Qed.
